@@ -144,6 +144,13 @@ def replay_batch(modnames, target, samples, timeout=120):
     return out
 
 
+def load_samples(pid):
+    path = os.path.join(ROOT, "locks", f"{pid}.samples.json")
+    if os.path.exists(path):
+        return json.load(open(path))
+    return {}
+
+
 def load_known():
     path = os.path.join(ROOT, "KNOWN_FINDINGS.jsonl")
     out = []
@@ -303,6 +310,24 @@ def run_property(pid, tier, seed, update_lock=False, only=None, verbose=False):
         for inp, (kind, text) in zip(r["path_samples"], res):
             if kind in ("violation",):
                 xcheck["disagreements"].append(dict(target=r["target"], inputs=inp, text=text))
+    # ---- contracts the engine could not process on this tree (construct outside the subset after an edit):
+    # their replay driver is run once on the inputs recorded when the contract was last locked; a violation it
+    # reports is a replayed observation on the real code (the checker error itself stays an exit-3 condition)
+    samples_db = load_samples(pid)
+    for r in errors:
+        c = reg.contracts.get(r["target"])
+        if c is None or c.replay is None:
+            continue
+        inputs = samples_db.get(r["target"]) or [{}]
+        res = replay_batch(modnames, r["target"], inputs[:6])
+        for inp, (kind, text) in zip(inputs, res):
+            if kind == "violation":
+                name = f"{c.short}#replay-of-recorded-inputs"
+                os.makedirs(replay_dir, exist_ok=True)
+                path = os.path.join(replay_dir, _safe(name) + ".json")
+                json.dump(dict(property=pid, obligation=name, target=r["target"], inputs=inp, observed=text, note="the verifier could not process this function on the current tree (" + str(r["error"])[:200] + "); the contract's replay driver reports this on the real code"), open(path, "w"), indent=1)
+                violations.append((name, path, text, False))
+                break
     # known findings that no longer reproduce are simply not printed (a fixed defect is fine)
 
     # vacuity guards
@@ -396,6 +421,7 @@ def run_property(pid, tier, seed, update_lock=False, only=None, verbose=False):
     if update_lock and not errors:
         os.makedirs(os.path.join(ROOT, "locks"), exist_ok=True)
         json.dump(sorted(n for n, e in obl.items() if e["verdict"] == "proved" and e["kind"] != "bounded"), open(os.path.join(ROOT, "locks", f"{pid}.json"), "w"), indent=0)
+        json.dump({r["target"]: r.get("path_samples", [])[:6] for r in reports if r.get("path_samples")}, open(os.path.join(ROOT, "locks", f"{pid}.samples.json"), "w"), indent=0)
         lock = []
     if violations:
         return 1
